@@ -61,9 +61,11 @@ def subst(x, name):
     return x
 
 
-def gen_tree(rng):
+def gen_tree(rng, force_single=False):
     """-> (top name, single?, {rel path tuple: size})"""
     name = rng.choice(TOP_NAMES)
+    if force_single:
+        return name, True, {(): rng.choice([1, 7, 3000, 20000])}
     if rng.random() < 0.12:
         return name, True, {(): rng.choice([0, 1, 7, 3000])}
     files = {}
@@ -273,7 +275,7 @@ def run(ck, model_ok):
         other = os.path.join(root, 'elsewhere')
         os.makedirs(other)
         for ti in range(45 if quick else 1500):
-            name, single, files = gen_tree(ck.rng)
+            name, single, files = gen_tree(ck.rng, force_single=(ti % 6 == 3))     # every sixth tree is a single non-empty file
             locs = [os.path.join(root, f't{ti}', 'l1'), os.path.join(root, f't{ti}', 'some deep', 'Dir.2')]
             for loc in locs:
                 materialise(loc, name, single, files)
